@@ -38,6 +38,18 @@ type World struct {
 	shadow  *kv.LFSM
 	// Direct: no scheduler - operations execute at once on the calling goroutine (for checks that run real goroutines against the store)
 	Direct bool
+	// Replicas > 0: every caller is a NODE with a replica of its own of the metadata state machine, as with kv.RaftStore: reads are
+	// stale reads of the node's replica, a write is committed to the shared log and answered with the result of the node's own replica
+	// once that has applied the entry.  Replicas other than the writer's lag until the scheduler lets them apply the next entry of the
+	// log - or catches them up by a SNAPSHOT of an up-to-date replica installed into the live state machine (what raft does for a
+	// member that fell behind the compacted log).  The scheduler's choices are then: the parked callers, followed by "advance replica r"
+	// and "install a snapshot on replica r" for every replica that is behind.  w.fsm stays the up-to-date replica the oracle reads.
+	Replicas    int
+	log         [][]byte
+	reps        []*kv.LFSM
+	applied     []uint64
+	SnapInstall int // snapshots installed on lagging replicas
+	LagReads    int // reads served by a replica that was behind the log
 }
 
 type event struct {
@@ -50,6 +62,70 @@ type event struct {
 
 func NewWorld() *World {
 	return &World{fsm: kv.NewLFSM()(1000, 1).(*kv.LFSM), events: make(chan event)}
+}
+
+// NewReplicatedWorld: see World.Replicas.
+func NewReplicatedWorld(n int) *World {
+	w := NewWorld()
+	w.Replicas = n
+	for i := 0; i < n; i++ {
+		w.reps = append(w.reps, kv.NewLFSM()(1000, uint64(i+1)).(*kv.LFSM))
+		w.applied = append(w.applied, 0)
+	}
+	return w
+}
+
+// reader is the state machine a caller's reads are served by.
+func (w *World) reader(caller int) *kv.LFSM {
+	if w.Replicas > 0 && caller < len(w.reps) {
+		if w.applied[caller] < w.index {
+			w.LagReads++
+		}
+		return w.reps[caller]
+	}
+	return w.fsm
+}
+
+// advance applies log entries to replica r: one entry, or (all = true) everything it lacks - in ONE Update call when Batch is set.
+func (w *World) advance(r int, all bool) ([]sm.Entry, error) {
+	var out []sm.Entry
+	for w.applied[r] < w.index {
+		var es []sm.Entry
+		for i := w.applied[r] + 1; i <= w.index; i++ {
+			es = append(es, sm.Entry{Index: i, Cmd: w.log[i-1]})
+			if !(all && w.Batch) {
+				break
+			}
+		}
+		res, err := w.reps[r].Update(es)
+		if err != nil {
+			return nil, err
+		}
+		w.applied[r] += uint64(len(es))
+		out = append(out, res...)
+		if !all {
+			break
+		}
+	}
+	return out, nil
+}
+
+// install catches replica r up by a snapshot of the up-to-date replica, installed into the live state machine.
+func (w *World) install(r int) error {
+	ctx, err := w.fsm.PrepareSnapshot()
+	if err != nil {
+		return err
+	}
+	var buf bytes.Buffer
+	if err := w.fsm.SaveSnapshot(ctx, &buf, nil, nil); err != nil {
+		return err
+	}
+	if err := w.reps[r].RecoverFromSnapshot(bytes.NewReader(buf.Bytes()), nil, nil); err != nil {
+		return err
+	}
+	w.applied[r] = w.index
+	w.SnapInstall++
+	return nil
 }
 
 // Peek reads a key without scheduling (oracle use only).
@@ -125,12 +201,21 @@ func (s *Store) propose(u kv.Update, pre *sm.Result) (sm.Result, error) {
 	if err != nil {
 		return sm.Result{}, err
 	}
+	if s.W.Replicas > 0 && s.Caller < len(s.W.reps) {
+		// committed; the proposer is answered by its own replica once that has applied the entry (and everything before it)
+		s.W.log = append(s.W.log, b)
+		own, err := s.W.advance(s.Caller, true)
+		if err != nil {
+			return sm.Result{}, err
+		}
+		return own[len(own)-1].Result, nil
+	}
 	return res[0].Result, nil
 }
 
 func (s *Store) Exists(key string) (bool, error) {
 	s.gate("exists", key)
-	v, err := s.W.fsm.Lookup(kv.QueryExist{Key: key})
+	v, err := s.W.reader(s.Caller).Lookup(kv.QueryExist{Key: key})
 	s.lastEr = err
 	if err != nil {
 		return false, err
@@ -140,7 +225,7 @@ func (s *Store) Exists(key string) (bool, error) {
 
 func (s *Store) Get(key string) (kv.Pair, error) {
 	s.gate("get", key)
-	v, err := s.W.fsm.Lookup(kv.QueryKey{Key: key})
+	v, err := s.W.reader(s.Caller).Lookup(kv.QueryKey{Key: key})
 	s.lastEr = err
 	if err != nil {
 		return kv.Pair{}, err
@@ -150,7 +235,7 @@ func (s *Store) Get(key string) (kv.Pair, error) {
 
 func (s *Store) GetAll(pattern string) ([]kv.Pair, error) {
 	s.gate("getall", pattern)
-	v, err := s.W.fsm.Lookup(kv.QueryAll{Pattern: pattern})
+	v, err := s.W.reader(s.Caller).Lookup(kv.QueryAll{Pattern: pattern})
 	s.lastEr = err
 	if err != nil {
 		return nil, err
@@ -161,7 +246,7 @@ func (s *Store) GetAll(pattern string) ([]kv.Pair, error) {
 // GetAllValues mirrors kv.RaftStore.GetAllValues.
 func (s *Store) GetAllValues(pattern string) ([]string, error) {
 	s.gate("getallvalues", pattern)
-	v, err := s.W.fsm.Lookup(kv.QueryAllValues{Pattern: pattern})
+	v, err := s.W.reader(s.Caller).Lookup(kv.QueryAllValues{Pattern: pattern})
 	s.lastEr = err
 	if err != nil {
 		return nil, err
@@ -264,12 +349,42 @@ func (w *World) RunWith(stores []*Store, programs []func(s *Store), schedule []i
 		if steps < len(schedule) {
 			choice = schedule[steps]
 		}
-		w.Branching = append(w.Branching, len(ids))
+		if w.Replicas > 0 {
+			// replicas that are behind can be advanced by one log entry or caught up by a snapshot
+			var lagging []int
+			for r := range w.reps {
+				if w.applied[r] < w.index {
+					lagging = append(lagging, r)
+				}
+			}
+			options := len(ids) + 2*len(lagging)
+			w.Branching = append(w.Branching, options)
+			if k := choice % options; k >= len(ids) {
+				k -= len(ids)
+				r := lagging[k/2]
+				steps++
+				if k%2 == 0 {
+					w.Trace = append(w.Trace, fmt.Sprintf("replica%d:apply-next-entry", r))
+					if _, err := w.advance(r, false); err != nil {
+						return steps, err
+					}
+				} else {
+					w.Trace = append(w.Trace, fmt.Sprintf("replica%d:install-snapshot", r))
+					if err := w.install(r); err != nil {
+						return steps, err
+					}
+				}
+				continue
+			}
+			choice = choice % options
+		} else {
+			w.Branching = append(w.Branching, len(ids))
+		}
 		id := ids[choice%len(ids)]
 		e := parked[id]
 		// batching: a second parked write joins the released one in a single Update call
 		other := -1
-		if w.Batch && e.update != nil {
+		if w.Batch && w.Replicas == 0 && e.update != nil {
 			for _, o := range ids {
 				if o != id && parked[o].update != nil {
 					other = o
